@@ -26,18 +26,29 @@ theorem build_untimed (ms : List MatrixData) (pr : Provider) (hb : build ms = .o
   · obtain ⟨h1, h2, _⟩ := newAgnostic_ok _ _ _ hag
     exact ⟨h1, h2⟩
 
-/-- an accepted set with a timed matrix: all are timed, no profile has a single matrix, the provider is time-aware -/
+/-- an accepted set with a timed matrix: all are timed, no profile has a single matrix, the keys within every profile
+    are pairwise different, the provider is time-aware -/
 theorem build_timed (ms : List MatrixData) (pr : Provider) (hb : build ms = .ok pr)
     (ht : ∃ m ∈ ms, m.timestamp.isSome = true) :
-    pr = .aware pr.size ms ∧ (∀ m ∈ ms, m.timestamp.isSome = true) ∧ ∀ m ∈ ms, (groupOf ms m.index).length ≠ 1 := by
+    pr = .aware pr.size ms ∧ (∀ m ∈ ms, m.timestamp.isSome = true) ∧ (∀ m ∈ ms, (groupOf ms m.index).length ≠ 1) ∧
+    ∀ p, DistinctKeys (supplied ms p) := by
   obtain ⟨hne, _, _, hcase⟩ := build_ok ms pr hb
   rcases hcase with ⟨_, haw⟩ | ⟨hall, _⟩
-  · obtain ⟨h1, h2, h3⟩ := newAware_ok _ _ _ haw
-    refine ⟨h1, fun m hm => ?_, fun m hm => by simpa using h3 m hm⟩
-    have := h2 m hm
-    cases hts : m.timestamp with
-    | none => rw [hts] at this; simp at this
-    | some _ => rfl
+  · obtain ⟨h1, h2, h3, h4⟩ := newAware_ok _ _ _ haw
+    refine ⟨h1, fun m hm => ?_, fun m hm => by simpa using h3 m hm, fun p => ?_⟩
+    · have := h2 m hm
+      cases hts : m.timestamp with
+      | none => rw [hts] at this; simp at this
+      | some _ => rfl
+    · cases hg : supplied ms p with
+      | nil => exact List.Pairwise.nil
+      | cons x g =>
+        have hx : x ∈ supplied ms p := by rw [hg]; exact List.mem_cons_self
+        have hxm : x ∈ ms := (List.mem_filter.mp hx).1
+        have hxi : x.index = p := by simpa using (List.mem_filter.mp hx).2
+        have := h4 x hxm
+        rw [hxi] at this
+        rw [← hg]; exact this
   · obtain ⟨m, hm, hs⟩ := ht
     rw [hall m hm] at hs; cases hs
 
